@@ -8,6 +8,8 @@
 
 use crate::c02::graph_job_parts;
 use crate::core::*;
+#[allow(unused_imports)]
+use crate::core::StatsExt;
 use crate::gen::{gen_graph, GraphParams};
 use crate::loader::*;
 use crate::simfs::{CorpusStore, Store};
@@ -567,6 +569,9 @@ impl Prop for C39 {
             }
         }
         out
+    }
+    fn evidence_extra(&self, stats: &Stats) -> Json {
+        crate::core::world_a_extra(stats)
     }
     fn rule(&self) -> String {
         "One run = one workload (3 of 5: a generated load graph of 1-4 files using @use/@forward/@import/meta.load-css in all wrapper positions; 2 of 5: a multi-file sass-spec case from the extracted corpus) compiled fault-free (baseline, twice) and then once per fault plan: EVERY find_file call index of the baseline history x 6 error kinds; EVERY opened file (root included) x 5 error kinds at offset 0, plus an error at every line boundary (sampled to 12 for long files), at one random interior byte and instead of EOF; a quarter of these again under short reads/EINTR; 8-15 seeded multi-fault sequences; up to 3 benign-only runs. evaluations = compilations; non-trivial = a hard fault was delivered; distinct = distinct digests of (loader event history incl. fault, result).".into()
